@@ -2035,7 +2035,7 @@ impl<'a> Environment<'a> {
         name: &str,
         location: Span,
     ) -> Result<Vec<ValueConstructor>, Error> {
-        if full_module_name.is_empty() || full_module_name == self.current_module {
+        if full_module_name == self.current_module {
             self.module_types_constructors
                 .get(name)
                 .ok_or_else(|| Error::UnknownType {
@@ -2061,6 +2061,14 @@ impl<'a> Environment<'a> {
                 })
                 .collect()
         } else {
+            // A prelude type lives in module "": its constructors are the prelude's, whatever the
+            // current module declares under the same name.
+            let full_module_name = if full_module_name.is_empty() {
+                crate::builtins::PRELUDE
+            } else {
+                full_module_name.as_str()
+            };
+
             let module = self
                 .importable_modules
                 .get(full_module_name)
